@@ -19,7 +19,7 @@ MANIFEST = {
 }
 THEOREMS = [
     "C11_start_checks", "C11_start", "C11_no_flag_survives", "C11_end_enforces_init_health", "C11_not_via_cpi",
-    "C11_flashloan_blocks",
+    "C11_flashloan_blocks", "C11_end_without_risk_accounts_only_if_empty",
 ]
 RULE = ("txval: every instruction list up to length 4 (quick) / 5 (thorough) over a 9-symbol flash-loan alphabet (start, end for the same / "
         "another / no account, short end data, end discriminator under foreign programs, borrow, compute budget) and up to 5/7 over a 4-symbol "
